@@ -164,7 +164,7 @@ fn rich_phase(thorough: bool) -> Phase {
             let xi = unit % RICH_ARGS.len();
             let x = tb.xs[xi];
             let n = form.len();
-            let width = if n <= 6 { 10 } else if n <= 9 { if thorough { 7 } else { 4 } } else if thorough { 4 } else { 3 };
+            let width = if n <= 6 { 10 } else if n <= 9 { if thorough { 6 } else { 4 } } else if thorough && n <= 10 { 4 } else { 3 };
             let mut ci = [0usize; 13];
             for i in 0..n {
                 ci[i] = cx.choose(width);
@@ -212,7 +212,7 @@ fn rich_phase(thorough: bool) -> Phase {
             ("negative_argument", true), ("non_negative_argument", true), ("|x|<1", true), ("|x|>=1", true),
         ],
         bounds: json!({"forms": "Poly0..Poly8, PolyN of length 0,1,2,3,6,9,10,12",
-            "coefficients": format!("cube over the first w values of {{0,1,-1,0.1,-1/3,pi,-2.5e-3,7.25e5,-1e6,1e-9}}: w=10 for <=6 coefficients, w={} for 7..9, w={} for 10..12", if thorough {7} else {4}, if thorough {4} else {3}),
+            "coefficients": format!("cube over the first w values of {{0,1,-1,0.1,-1/3,pi,-2.5e-3,7.25e5,-1e6,1e-9}}: w=10 for <=6 coefficients, w={} for 7..9, w=3 for 10..12 (4 for 10 thorough)", if thorough {6} else {4}),
             "arguments": "{0,+-0.1,+-1/3,+-0.999999,1.000001,+-2.5,+-7.3,+-1e3,+-1e-3,+-1,1e5,-3e6,2.5e7,1e-5,-3e-7,65536,succ(1),-pred(1)}",
             "oracle": "exact dyadic sum S and bound B=4(n+2)*2^-53*sum|c_i||x|^i; verdict |got-S|<=B decided in exact arithmetic"}),
     }
